@@ -434,8 +434,12 @@ def write_evidence(pid, tier, seed, prop, vcs, info, wall, undecided=None, solve
         cov = ev["coverage"]
         cov["obligations_generated"], cov["obligations_discharged"] = cov.pop("obligations"), cov.pop("discharged")
         cc = (extra or {}).get("crosscheck") or {}
-        cov["evaluations"] = int(cc.get("evaluations") or 0)
-        cov["distinct_nontrivial"] = int(cc.get("distinct") or 0)
+        # (a cross-check that stops at its first failing input reports no counts: at least that one
+        #  input was evaluated; nothing more is claimed)
+        cov["evaluations"] = int(cc.get("evaluations") or (1 if cc.get("failed") else 0))
+        cov["distinct_nontrivial"] = int(cc.get("distinct") or (1 if cc.get("failed") else 0))
+        if not cov["samples"]:
+            cov["samples"] = [{"failing_input": cc.get("input"), "observed": cc.get("observed"), "required": cc.get("required")} if cc.get("failed") else {"undecided": undecided}]
         cov["rule"] = "proof UNDECIDED on this tree; the counts are those of the bounded run-time cross-check of the executable postcondition on the real code: " + str(cc.get("rule", "not run"))
     with open(os.path.join(evidence_dir(), f"{pid}.json"), "w") as f:
         json.dump(ev, f, indent=1, default=str)
